@@ -119,6 +119,28 @@ class ASet(object):
         return '<set %r>' % (self.items,)
 
 
+class ARecordType(object):
+    """collections.namedtuple(name, fields): the type; calling it makes an ARecord."""
+
+    def __init__(self, name, fields):
+        self.name = name
+        self.fields = tuple(fields)
+
+    def __repr__(self):
+        return '<namedtuple %s%r>' % (self.name, self.fields)
+
+
+class ARecord(object):
+    """An instance of a namedtuple type: immutable, fields may hold abstract values."""
+
+    def __init__(self, rtype, values):
+        self.rtype = rtype
+        self.values = tuple(values)
+
+    def __repr__(self):
+        return '<%s %r>' % (self.rtype.name, self.values)
+
+
 class AIter(object):
     """An iterator over a definite sequence of abstract values (iter() of a known tuple/list/section)."""
 
